@@ -941,6 +941,9 @@ class Engine:
             if cb is None or cb < 0 or cb > 8:
                 if b.ty == 'int' and a.ty in ('int', 'real') and self.specmode:
                     return SV(POW(self.toreal(a).t, self.toreal(b).t), 'real')
+                if b.ty == 'real' and a.ty in ('int', 'real'):
+                    # real exponent: the total uninterpreted function pow(x, y) over the reals (anything proved holds for the true power)
+                    return SV(POW(self.toreal(a).t, b.t), 'real')
                 raise Unsupported('power with non-small-constant exponent')
             if is_bv(a.ty):
                 # numba: uint64 ** int64 literal -> int64 (observed), other ints -> int64 as well
